@@ -738,7 +738,13 @@ func main() {
 	var scs []scase
 	for i := 0; i < nseq; i++ {
 		hn := i%5 != 4
-		t, st, nt := seqTrace(rng, hn)
+		var t string
+		var st []string
+		var nt bool
+		if p, val := vhlib.Recover(func() { t, st, nt = seqTrace(rng, hn) }); p {
+			w.Violation(fmt.Sprintf("pool/sequential(New=%v)", hn), "panic in Get/Put on a single goroutine", fmt.Sprint(val))
+			continue
+		}
 		scs = append(scs, scase{t, st, nt, hn})
 	}
 	runtime.GOMAXPROCS(old)
